@@ -28,7 +28,7 @@ def run(tier, replay):
         ov = {"internal/discovery/vcommon_test.go": ("common/vcommon_test.go", "discovery"),
               "internal/discovery/c18_test.go": "discovery/c18_test.go"}
         rec = os.path.join(wd, "c18_records.ndjson")
-        nrec = 30 if tier == "quick" else 120
+        nrec = 30 if tier == "quick" else 1500
         rc, out = vlib.go_test(wd, "./internal/discovery", ov, "TestC18Records",
                                env={"VERIF_OUT": rec, "VERIF_N": nrec, "VERIF_SEED": vlib.seed()}, timeout=600)
         if rc != 0 or not os.path.exists(rec):
